@@ -501,3 +501,110 @@ def explore(fn, base=(), max_paths=256):
         todo.append(c.decisions[:i] + [not c.decisions[i]])
     CTX = None
   return paths, limits
+
+
+# ---- symbolic strings (z3 sequence theory), used for safe_eval.GetArg ------------------------------------------------------
+def _re_chars(chars):
+  return z3.Union(*[z3.Re(c) for c in chars]) if len(chars) > 1 else z3.Re(chars)
+
+
+DIGIT = z3.Range("0", "9")
+# what the builtins accept, restricted to strings without whitespace / underscores-at-ends (validated against int()/float())
+PY_INT_RE = z3.Concat(z3.Option(z3.Union(z3.Re("-"), z3.Re("+"))), z3.Plus(DIGIT), z3.Star(z3.Concat(z3.Re("_"), z3.Plus(DIGIT))))
+_DIGITS_US = z3.Concat(z3.Plus(DIGIT), z3.Star(z3.Concat(z3.Re("_"), z3.Plus(DIGIT))))
+_EXP = z3.Concat(z3.Union(z3.Re("e"), z3.Re("E")), z3.Option(z3.Union(z3.Re("-"), z3.Re("+"))), _DIGITS_US)
+_MANT = z3.Union(z3.Concat(_DIGITS_US, z3.Option(z3.Concat(z3.Re("."), z3.Option(_DIGITS_US)))), z3.Concat(z3.Re("."), _DIGITS_US))
+
+
+def _ci(word):
+  return z3.Concat(*[z3.Union(z3.Re(ch.lower()), z3.Re(ch.upper())) for ch in word])
+
+
+PY_FLOAT_RE = z3.Concat(z3.Option(z3.Union(z3.Re("-"), z3.Re("+"))),
+                        z3.Union(z3.Concat(_MANT, z3.Option(_EXP)), _ci("inf"), _ci("infinity"), _ci("nan")))
+
+
+class SymFloatOf(object):
+  """the value float(s) of a symbolic string (opaque: the code under test obtains it from the builtin)"""
+
+  def __init__(self, s):
+    self.s = s
+
+
+class SymStr(object):
+  def __init__(self, e):
+    self.e = e
+
+  def _o(self, o):
+    return o.e if isinstance(o, SymStr) else z3.StringVal(o)
+
+  def __eq__(self, o):
+    if not isinstance(o, (str, SymStr)):
+      return False
+    return SymBool(self.e == self._o(o))
+
+  def __ne__(self, o):
+    if not isinstance(o, (str, SymStr)):
+      return True
+    return SymBool(self.e != self._o(o))
+
+  def __hash__(self):
+    return id(self)
+
+  def __contains__(self, o):
+    return bool(SymBool(z3.Contains(self.e, self._o(o))))
+
+  def __len__(self):
+    raise TypeError("len() of a symbolic string")
+
+  def __getitem__(self, k):
+    n = z3.Length(self.e)
+    if isinstance(k, slice):
+      if k.step not in (None, 1):
+        raise TypeError("slice step")
+      a = 0 if k.start is None else k.start
+      b_ = n if k.stop is None else (n + k.stop if k.stop < 0 else z3.IntVal(k.stop))
+      a = n + a if a < 0 else z3.IntVal(a)
+      return SymStr(z3.SubString(self.e, a, z3.If(b_ - a > 0, b_ - a, 0)))
+    idx = n + k if k < 0 else z3.IntVal(k)
+    c = _ctx()
+    if c.feasible(z3.Or(idx < 0, idx >= n)):
+      if not c.feasible(z3.And(idx >= 0, idx < n)):
+        raise IndexError("string index out of range")
+      if bool(SymBool(z3.Or(idx < 0, idx >= n))):
+        raise IndexError("string index out of range")
+    return SymStr(z3.SubString(self.e, idx, 1))
+
+  def replace(self, old, new):
+    c = _ctx()
+    if c.feasible(z3.Contains(self.e, z3.StringVal(old))):
+      raise PathLimit("str.replace on a string that may contain %r" % old)
+    return self
+
+  def split(self, sep=None):
+    c = _ctx()
+    if sep is None or c.feasible(z3.Contains(self.e, z3.StringVal(sep))):
+      raise PathLimit("str.split on a string that may contain the separator")
+    return [self]
+
+  def __repr__(self):
+    return "SymStr(%s)" % self.e
+
+
+def str_int(x, *a):
+  """int() on a symbolic string: succeeds exactly on PY_INT_RE (contract, validated against the builtin)"""
+  if isinstance(x, SymStr):
+    if bool(SymBool(z3.InRe(x.e, PY_INT_RE))):
+      body = z3.If(z3.Or(z3.PrefixOf("-", x.e), z3.PrefixOf("+", x.e)), z3.SubString(x.e, 1, z3.Length(x.e) - 1), x.e)
+      val = z3.StrToInt(body)
+      return SymInt(z3.If(z3.PrefixOf("-", x.e), -val, val))
+    raise ValueError("invalid literal for int()")
+  return sym_int(x, *a)
+
+
+def str_float(x):
+  if isinstance(x, SymStr):
+    if bool(SymBool(z3.InRe(x.e, PY_FLOAT_RE))):
+      return SymFloatOf(x)
+    raise ValueError("could not convert string to float")
+  return sym_float(x)
